@@ -32,7 +32,8 @@ REQUIRED = ["Never.C16.destructor_table_complete_partial", "Never.C16.discardabl
             "Never.C16.owned_fields_released", "Never.C16.conditionally_owned_fields_released", "Never.C16.no_double_release",
             "Never.C16.borrowed_never_released", "Never.C16.releases_use_the_deleter_of_the_type", "Never.C16.constructors_fill_only_known_fields",
             "Never.C16.fresh_allocations_go_to_released_fields", "Never.C16.elsewhere_released_there", "Never.C16.retag_keeps_ownership_partial",
-            "Never.C16.unguarded_releases_never_null", "Never.C16.own_table_consistent"]
+            "Never.C16.unguarded_releases_never_null", "Never.C16.own_table_consistent",
+            "Never.C16.table_edges_match", "Never.C16.delete_frees_exactly_the_owned_tree", "Never.C16.delete_frees_nothing_twice_and_leaves_nothing"]
 # the exception lists of Props/C16.lean (kept in step with it; the Lean side is what is proved)
 KNOWN_MISSING = ["param_decl", "except"]
 KNOWN_LEAKING = []
@@ -147,7 +148,7 @@ def replay_rows(rep, exe, d, t, rows, rules):
 def own_probe():
     """rows of the regenerated ownership table that fail a check of Model/Own.lean (`FAIL theorem | where | what` lines printed by
     checks/own_probe.lean).  Needs Model/Own.lean to compile; returns (fail lines, wild-store lines, raw output)"""
-    rc, out = lake_build(["NeverModel.Model.Own"])
+    rc, out = lake_build(["NeverModel.Model.OwnSem"])
     if rc != 0:
         errs = [l for l in out.split("\n") if "error" in l][:10]
         return ["FAIL own_table_consistent | lean/NeverModel/Model/Own.lean does not compile against the regenerated table (a member / tag / function named by the discipline no longer exists?) | " + " ; ".join(errs)], [], out
